@@ -123,6 +123,9 @@ type sessionCase struct {
 	honest   bool   // after TLS: honest SASL+bind script
 	tee      bool
 	extraDbl bool // an extra double that needs Secure
+	// the to attribute of the peer's clear-text response header: "" (none),
+	// "own" (the client's address) or "foreign" (somebody else's, in another domain)
+	hdrTo string
 	// beforeProceed, when set, is called by the peer after it has read the
 	// client's <starttls/> and before it answers <proceed/> (used to overlap
 	// several sessions that share one feature value)
@@ -138,7 +141,7 @@ func (tc tcase) String() string {
 	var sb strings.Builder
 	fmt.Fprintf(&sb, "StartTLS(cfg nil=%v) reused for %d sessions:", tc.nilCfg, len(tc.sessions))
 	for i, s := range tc.sessions {
-		fmt.Fprintf(&sb, "\n  session %d: domain=%s first-list=%s answer=%s after-proceed=%s honest-after-tls=%v tee=%v extra-double=%v", i, s.domain, s.first, s.answer, s.after, s.honest, s.tee, s.extraDbl)
+		fmt.Fprintf(&sb, "\n  session %d: domain=%s first-list=%s answer=%s after-proceed=%s honest-after-tls=%v tee=%v extra-double=%v clear-header-to=%q", i, s.domain, s.first, s.answer, s.after, s.honest, s.tee, s.extraDbl, s.hdrTo)
 	}
 	return sb.String()
 }
@@ -159,6 +162,7 @@ func genCase(t *rapid.T) tcase {
 			honest:   rapid.Bool().Draw(t, "honest"),
 			tee:      rapid.Bool().Draw(t, "tee"),
 			extraDbl: rapid.IntRange(0, 3).Draw(t, "extra") == 0,
+			hdrTo:    rapid.SampledFrom([]string{"", "", "own", "own", "foreign"}).Draw(t, "hdrTo"),
 		})
 	}
 	return tc
@@ -184,8 +188,14 @@ type sresult struct {
 	reported map[string]bool
 }
 
-func header(from string) string {
-	return `<?xml version="1.0"?><stream:stream xmlns="` + stanza.NSClient + `" xmlns:stream="` + wire.StreamNS + `" version="1.0" id="s1" from="` + from + `">`
+func header(from string) string { return headerTo(from, "") }
+
+func headerTo(from, to string) string {
+	h := `<?xml version="1.0"?><stream:stream xmlns="` + stanza.NSClient + `" xmlns:stream="` + wire.StreamNS + `" version="1.0" id="s1" from="` + from + `"`
+	if to != "" {
+		h += ` to="` + to + `"`
+	}
+	return h + ">"
 }
 
 func secureDouble() xmpp.StreamFeature {
@@ -253,25 +263,32 @@ func runSession(sc sessionCase, feature xmpp.StreamFeature, forceTee *bool) sres
 			return
 		}
 		// 2. first features list
+		hdr1 := header(sc.domain)
+		switch sc.hdrTo {
+		case "own":
+			hdr1 = headerTo(sc.domain, local.String())
+		case "foreign":
+			hdr1 = headerTo(sc.domain, "alice@evil.example")
+		}
 		starttls := `<starttls xmlns="` + tlsNS + `"/>`
 		mechs := `<mechanisms xmlns="` + saslNS + `"><mechanism>PLAIN</mechanism></mechanisms>`
 		switch sc.first {
 		case "required":
-			feedClear(header(sc.domain) + `<stream:features><starttls xmlns="` + tlsNS + `"><required/></starttls></stream:features>`)
+			feedClear(hdr1 + `<stream:features><starttls xmlns="` + tlsNS + `"><required/></starttls></stream:features>`)
 		case "optional":
-			feedClear(header(sc.domain) + `<stream:features>` + starttls + `</stream:features>`)
+			feedClear(hdr1 + `<stream:features>` + starttls + `</stream:features>`)
 		case "among":
-			feedClear(header(sc.domain) + `<stream:features>` + mechs + starttls + `<bind xmlns="` + bindNS + `"/><sec xmlns="urn:verif:sec"/></stream:features>`)
+			feedClear(hdr1 + `<stream:features>` + mechs + starttls + `<bind xmlns="` + bindNS + `"/><sec xmlns="urn:verif:sec"/></stream:features>`)
 		case "absent-others":
-			feedClear(header(sc.domain) + `<stream:features>` + mechs + `<bind xmlns="` + bindNS + `"/><sec xmlns="urn:verif:sec"/></stream:features>`)
+			feedClear(hdr1 + `<stream:features>` + mechs + `<bind xmlns="` + bindNS + `"/><sec xmlns="urn:verif:sec"/></stream:features>`)
 		case "absent-empty":
-			feedClear(header(sc.domain) + `<stream:features/>`)
+			feedClear(hdr1 + `<stream:features/>`)
 		case "missing-eof":
-			feedClear(header(sc.domain))
+			feedClear(hdr1)
 			conn.CloseInput()
 			return
 		case "missing-error":
-			feedClear(header(sc.domain) + `<stream:error><host-unknown xmlns="urn:ietf:params:xml:ns:xmpp-streams"/></stream:error>`)
+			feedClear(hdr1 + `<stream:error><host-unknown xmlns="urn:ietf:params:xml:ns:xmpp-streams"/></stream:error>`)
 			conn.CloseInput()
 			return
 		}
@@ -614,7 +631,7 @@ func classify(tc tcase) (bool, []string) {
 	var classes []string
 	nt := len(tc.sessions) >= 2
 	for _, s := range tc.sessions {
-		classes = append(classes, "first-"+s.first, "answer-"+s.answer)
+		classes = append(classes, "first-"+s.first, "answer-"+s.answer, "clear-header-to-"+s.hdrTo)
 		if s.answer == "proceed" {
 			classes = append(classes, "after-"+s.after)
 		}
